@@ -190,8 +190,9 @@ _FORMS2 = [f for f in S.POS_FORMS if f.slots == 2]
 @st.composite
 def _case(draw, max_lines=30):
     pool = []
-    for _ in range(draw(st.integers(2, 6))):
-        c = draw(st.sampled_from(S.CLASSES))
+    big = draw(st.integers(0, 5)) == 0
+    for _ in range(draw(st.integers(12, 26)) if big else draw(st.integers(2, 6))):
+        c = draw(st.sampled_from(S.CLASSES if not big else ["hex", "hex", "text", "numeric", "type7"]))
         if c == "j9":
             plain = draw(st.one_of(S.text_value(max_size=10, alphabet_mid=S.TEXT_END), S.numeric_value(), S.hex_value()))
             pool.append({"cls": "j9", "plain": plain})
@@ -210,11 +211,11 @@ def _case(draw, max_lines=30):
                     v = draw(st.sampled_from(["\\" + base, base + "\\"]))
             pool.append({"cls": c, "value": v})
     lines = []
-    for _ in range(draw(st.integers(2, max_lines))):
+    for _ in range(draw(st.integers(2, max_lines)) if not big else draw(st.integers(len(pool), len(pool) + 12))):
         if draw(st.integers(0, 5)) == 0:
             lines.append({"text": draw(st.sampled_from(["interface Gi0/1", " description uplink", "!", "ip address 10.1.2.3 255.255.255.0", "", "router bgp 65001", " shutdown"]))})
             continue
-        p = draw(st.sampled_from(pool))
+        p = draw(st.sampled_from(pool)) if not big or len(lines) >= len(pool) else pool[len(lines)]
         if p["cls"] == "j9":
             if draw(st.integers(0, 3)) == 0:
                 v = p["plain"]
